@@ -232,3 +232,30 @@ Definition rel_unbind (al : alg) (u : seq dyad) (a : zvec) (t : tol) : bool :=
       end
   | _ => false
   end.
+
+(* ---- vector generators (C19): relations on exact outputs ------------------------ *)
+(* squared norm of an exact output equals 1 *)
+Definition rel_unit_norm (v : seq dyad) (t : tol) : bool :=
+  let K := dy_maxk v in
+  let V := dy_common K v in
+  close_rat (dot V V, K + K) 1%Z 1%Z t.
+
+(* <u, v> = target (0 or 1) *)
+Definition rel_dot (u v : seq dyad) (target : Z) (t : tol) : bool :=
+  let K := maxn (dy_maxk u) (dy_maxk v) in
+  close_rat (dot (dy_common K u) (dy_common K v), K + K) target 1%Z t.
+
+(* v = g / sqrt(d) component-wise: d * v_i^2 = g_i^2 with equal signs *)
+Definition rel_scaled_draw (v g : seq dyad) (d : nat) (t : tol) : bool :=
+  let K := maxn (dy_maxk v) (dy_maxk g) in
+  all2 (fun a b => close_rat ((a * a * Zn d)%Z, K + K) (b * b)%Z (pow2 (K + K)) t
+                   && ((0 <=? a * b)%Z))
+       (dy_common K v) (dy_common K g).
+
+(* HRR sign of an exact output: dc > 0 and (even d) nyquist >= -eps *)
+Definition rel_hrr_positive (v : seq dyad) (t : tol) : bool :=
+  let K := dy_maxk v in
+  let V := dy_common K v in
+  ((0 <? hrr_dc V)%Z) &&
+  (if odd (size v) then true
+   else negb (close_rat (hrr_nyq V, K) 0%Z 1%Z t) ==> (0 <? hrr_nyq V)%Z).
